@@ -243,6 +243,9 @@ class TriggerDecorator(Decorator, ABC):
 class TriggerHandlerDecorator(Decorator, ABC):
     """Base class for trigger handler decorators."""
 
+    # A guard that records the occurrences it accepts (e.g. hold_off) is consulted after the other guards.
+    records_accepted: ClassVar[bool] = False
+
     async def validate(self) -> None:
         """Validate the decorated function."""
         await super().validate()
